@@ -426,6 +426,8 @@ V32, V8, S2, S4, S4U8, S3X, F3, F8 = ("v:basic:uint32_t", "v:basic:uint8_t", "s2
 SWAP2_QUICK = [
     PairCfg("NTR", V32, S4), PairCfg("TR", V32, V8), PairCfg("NTR", S2, S4), PairCfg("TR", S4, S4U8), PairCfg("NTR", S4, S3X), PairCfg("TR", S4, F3),
     PairCfg("NTR", F3, F8), PairCfg("TC4", V8, F8), PairCfg("TR", S2, V8), PairCfg("NTR", S4U8, F8), PairCfg("TC4", V32, S3X), PairCfg("TR", S4, S4),
+    # same width, other signedness; a fixed capacity beyond an 8-bit size_type
+    PairCfg("TR", V8, "v:basic:int8_t"), PairCfg("TC4", "f300", V8), PairCfg("NTR", "s4:basic:int8_t", S4U8),
 ]
 SWAP2_THOROUGH = [
     PairCfg("TR", V32, S4), PairCfg("NTR", V32, V8), PairCfg("TR", S2, S4), PairCfg("NTR", S4, S4U8), PairCfg("TR", S4, S3X), PairCfg("NTR", S4, F3),
